@@ -194,6 +194,13 @@ theorem inv_step {c : Cfg} (hg : Good c) {s : State} (h : Inv c s) (op : Op) : I
     split
     · exact h
     · exact ⟨envKnown_upsert _ h.envKnown, h.picked, h.keys⟩
+  | refresh pid uid tok =>
+    simp only [step]
+    split
+    · exact h
+    · refine ⟨h.envKnown, h.picked, ?_⟩
+      apply keys_map _ _ h.keys
+      intro p; split <;> simp
 
 theorem inv_run {c : Cfg} (hg : Good c) : ∀ (ops : List Op) (s : State), Inv c s → Inv c (run c s ops)
   | [], _, h => h
@@ -239,6 +246,7 @@ theorem pick_step (c : Cfg) (s : State) (op : Op) :
   | updateKey name key keyId => simp only [step, picks]; split <;> simp
   | destroy => simp [step, picks, init]
   | probe ra mv => simp only [step, picks]; split <;> simp [upsertEnv]
+  | refresh pid uid tok => simp only [step, picks]; split <;> simp
 
 end CliConfig
 
